@@ -1233,6 +1233,19 @@ func (o *c15Oracle) organism(spec c15Org) {
 		o.fail("organism-marshal-error", "Organism.MarshalBinary failed", in, err.Error(), "nil error")
 		return
 	}
+	// the bytes handed out belong to the caller: marshalling another organism before they are consumed must
+	// not change them (several results are alive at once when a population is shipped between goroutines)
+	kept := append([]byte{}, data...)
+	decoy := c15MakeOrg(spec)
+	decoy.Fitness, decoy.Generation = decoy.Fitness+1.5, decoy.Generation+7
+	_, _ = c15Guard(func() error {
+		_, e := decoy.MarshalBinary()
+		return e
+	})
+	if !bytes.Equal(kept, data) {
+		o.fail("organism-marshal-result-overwritten", "the bytes returned by MarshalBinary changed when another organism was marshalled afterwards", in, "changed", "unchanged")
+		return
+	}
 	back := &genetics.Organism{}
 	if err, _ = c15Guard(func() error { return back.UnmarshalBinary(data) }); err != nil {
 		o.fail("organism-unmarshal-error", "Organism.UnmarshalBinary rejects what MarshalBinary wrote", in, err.Error(), "nil error")
@@ -2008,6 +2021,7 @@ func runC15(r *Run) error {
 	r.Note("ReadPopulation panics (nil *bytes.Buffer) on any non-comment line outside genomestart..genomeend; the model returns GoPanic there and the correspondence covers it; it is not on a round-trip path")
 	r.Note("not carried by the formats (so not compared): plain drops modules; YAML drops module link weights (reads 1.0) and the sign of -0; gob experiment drops Trial.Duration, " +
 		"Trial.WinnerGeneration, Experiment.RandSeed, Experiment.MaxFitnessScore and the champion's Species")
+	c15FmnsCases(r)
 	return nil
 }
 
@@ -2044,6 +2058,8 @@ func replayC15(r *Run, input []byte) error {
 		o.strconvRoundTrip([]float64{c15pf(head.Value)})
 	case "registry":
 		c15Registry(r)
+	case "fmns-net", "fmns-solver", "fmns-doc":
+		return c15FmnsReplay(r, input)
 	default:
 		return fmt.Errorf("replay of kind %q is a correspondence input (text through a reader): re-run the check", head.Kind)
 	}
